@@ -140,8 +140,9 @@ func Harness_C03_Numbers(format int) {
 }
 
 // Harness_C03_AcceptJSON: a conforming JSON document with insignificant
-// whitespace at solver-chosen places, members in either order, one character
-// written literally or as \u00XX, and a solidus escape, yields the value.
+// whitespace at solver-chosen places, members in either order, member names
+// and characters written literally or as \u00XX, and a solidus escape, yields
+// the value.
 func Harness_C03_AcceptJSON(n int) {
 	s := verif.String(n)
 	verif.Assume(utf8.ValidString(s))
@@ -161,8 +162,11 @@ func Harness_C03_AcceptJSON(n int) {
 	}
 	lit += `"`
 	w1, w2 := ws(), ws()
-	m1 := `"s"` + w1 + `:` + w2 + lit
-	m2 := `"t":"a\/b"`
+	// member names may be spelled with escapes too (RFC 8259 §7: any character may be escaped)
+	k1 := []string{`"s"`, `"\u0073"`}[verif.Choose(2)]
+	k2 := []string{`"t"`, `"\u0074"`}[verif.Choose(2)]
+	m1 := k1 + w1 + `:` + w2 + lit
+	m2 := k2 + `:"a\/b"`
 	doc := w2 + "{" + w1
 	if verif.Bool() {
 		doc += m1 + w2 + "," + w1 + m2
